@@ -269,10 +269,11 @@ ConcatNLaw == \A ra \in Live, rb \in Live, sh \in NaryShapes :
                       c.rows[RowsBefore(ts, k) + i][cc] = (IF cc \in ColSet(ts[k]) THEN ts[k].rows[i][cc] ELSE None)
 \* the scaling laws: a row-selecting or row-wise call on k copies of the rows yields k copies of what it yields on the rows, in order
 \* (this is how the recorded histories on tables of 17 .. 1025 rows relate to the small tables TLC enumerates)
+\* construction from k copies of the rows / records of a pattern is k copies of the table (state-independent: checked once, at start-up)
+ASSUME BigSeedLaw == \A s \in BigSeeds : \A kk \in {2, 3} : LET p == NR(Construct(s).t) IN NewBigT(s, kk * p, 1).t = CopiesT(Construct(s).t, kk)
 ScaleLaws == \A r \in Live : NR(T(r)) > 0 =>
                 LET t == T(r)  n == NR(t)  c1 == t.cols[1] IN \A k \in (IF n <= 2 THEN {2, 3} ELSE {2}) :
                 LET big == CopiesT(t, k) IN
-                /\ \A s \in BigSeeds : \A kk \in {2, 3} : LET p == NR(Construct(s).t) IN NewBigT(s, kk * p, 1).t = CopiesT(Construct(s).t, kk)   \* construction from k copies
                 /\ \A m \in {"odd", "all", "nothing"} : MaskSeqT(big, CycleTo(MaskOf(n, m), k * n)).t = CopiesT(MaskT(t, m).t, k)
                 /\ ConcatT(big, t).t = CopiesT(t, k + 1)
                 /\ ConcatManyT([j \in 1..k |-> t]).t = big
